@@ -31,6 +31,13 @@ def bval(b):
     return {"t": "b", "x": b.hex()}
 
 
+# legal text that a "normalising" or "tidying" code path would change: decomposed accents, compatibility characters, a leading
+# byte-order mark, ligatures, case-folding traps, non-breaking / zero-width / directional characters, trailing dots and blanks
+TRICKY_TEXTS = ["Jose\u0301", "\u212b", "\uf900", "\u1112\u1161\u11ab", "\ufeffbom", "mid\ufeffbom", "e\u0301\u0327", "\ufb01", "\u0130", "\u00df", "\u200frtl",
+                "a\u00a0b", "\u2126", "\u01c6", "zero\u200bwidth", "x\u0308", "\u1e9b\u0323", "host.example.", "UPPER.Example", " lead", "trail ", "tab\there",
+                "a\u0000b", "%41", "a+b", "\U0001f600"]
+tricky_text = st.sampled_from(TRICKY_TEXTS)
+
 octets = st.one_of(st.sampled_from([0, 1, 127, 128, 255]), st.integers(0, 255))
 _small = st.sampled_from([0, 1, 2, 3])
 # addresses whose packed form starts like an Address family code (00 01 / 00 02 / 00 00 ...) are generated on purpose: code that
